@@ -312,6 +312,54 @@ impl MkBuf for ArrayBuf<Tag, A96> {
     }
 }
 
+/// a user-defined backing array with an alignment attribute: `size_of` is 64, the length is 3
+#[repr(align(64))]
+pub struct Al3([Tag; 3]);
+impl AsRef<[Tag]> for Al3 {
+    fn as_ref(&self) -> &[Tag] {
+        &self.0
+    }
+}
+impl AsMut<[Tag]> for Al3 {
+    fn as_mut(&mut self) -> &mut [Tag] {
+        &mut self.0
+    }
+}
+unsafe impl futures_intrusive::buffer::RealArray<Tag> for Al3 {
+    const LEN: usize = 3;
+}
+impl MkBuf for ArrayBuf<Tag, Al3> {
+    fn mk(cap: usize) -> Self {
+        assert_eq!(cap, 3);
+        Self::new()
+    }
+}
+/// ... and one whose storage is larger than LEN elements because it carries a trailing field
+#[repr(C)]
+pub struct Pad2 {
+    items: [Tag; 2],
+    _trailer: [u64; 4],
+}
+impl AsRef<[Tag]> for Pad2 {
+    fn as_ref(&self) -> &[Tag] {
+        &self.items
+    }
+}
+impl AsMut<[Tag]> for Pad2 {
+    fn as_mut(&mut self) -> &mut [Tag] {
+        &mut self.items
+    }
+}
+unsafe impl futures_intrusive::buffer::RealArray<Tag> for Pad2 {
+    const LEN: usize = 2;
+}
+impl MkBuf for ArrayBuf<Tag, Pad2> {
+    fn mk(cap: usize) -> Self {
+        assert_eq!(cap, 2);
+        Self::new()
+    }
+}
+
 #[derive(Clone, Copy, Debug, PartialEq)]
 pub enum ScriptOp {
     /// fill the buffer, pop x elements, fill it again, pop everything, fill half, drop
